@@ -63,25 +63,28 @@ def _job(job) -> List[Dict[str, Any]]:
     def inst(rule, verdict, construct, message="", detail=None, m=mod, fn=entry, ln=line):
         out.append(dict(rule=rule, verdict=verdict, module=m, function=fn, construct=construct, line=ln, message=message, detail=dict(detail or {}, case=case)))
 
-    def _rank_order_positions(I, *syms) -> bool:
-        """Inside the update kernel the teams are in rank order (R4.1), so a position in a loop over all teams there is an order
-        statistic (e.g. the ladder neighbours i - 1 / i + 1 of partial pairing), not a presentation position."""
+    teams_terms = (("len", "IN.teams", ()), ("add", ("len", "IN.teams", ()), -1))
+
+    def pos_tagger(I, length):
+        # which dimension a position value ranges over, and whether it was made inside the update kernel
+        dim = "teams" if length.term in teams_terms else "other"
+        return {f"POS:{dim}:k" if any(in_kernel_label(f.label) for f in I.stack) else f"POS:{dim}"}
+
+    def _rank_order_positions(I, *vals) -> bool:
+        """Inside the update kernel the teams are in rank order (R4.1), so a position over all teams made there is an order
+        statistic (e.g. the ladder neighbours i - 1 / i + 1 of partial pairing, or the default rank of a team), not a
+        presentation position. Decided on the provenance of the value: every position it derives from was made in the kernel and
+        ranges over the teams."""
         if not any(in_kernel_label(f.label) for f in I.stack):
             return False
-        toks: set = set()
-        for s_ in syms:
-            if s_ is not None:
-                from ..ai.values import sym_index_vars
-
-                sym_index_vars(s_, toks)
-        loops = {lc.token: lc for lc in I.loops}
-        used = [loops[t] for t in toks if t in loops]
-        teams_terms = (("len", "IN.teams", ()), ("add", ("len", "IN.teams", ()), -1))
-        return bool(used) and all(lc.length.term in teams_terms for lc in used)
+        tags = {t for v in vals if v is not None for t in v.prov if t.startswith("POS:")}
+        return bool(tags) and tags <= {"POS:teams:k"}
 
     def setup(w):
+        w.I.pos_tagger = pos_tagger
+
         def arith(I, node, opname, a, b):
-            if (_mentions_idx(a.sym) or _mentions_idx(b.sym)) and not _exempt(I.cur_func()) and not _rank_order_positions(I, a.sym if _mentions_idx(a.sym) else None, b.sym if _mentions_idx(b.sym) else None):
+            if (_mentions_idx(a.sym) or _mentions_idx(b.sym)) and not _exempt(I.cur_func()) and not _rank_order_positions(I, a if _mentions_idx(a.sym) else None, b if _mentions_idx(b.sym) else None):
                 f = I.cur_func()
                 sites.append(dict(m=f.partition("::")[0], fn=f.partition("::")[2], ln=getattr(node, "lineno", 0), c=norm_text(node, 100),
                                   msg=f"a loop position over teams/players enters arithmetic ({opname}): the result depends on where a team or player stands in the input"))
@@ -89,7 +92,7 @@ def _job(job) -> List[Dict[str, Any]]:
         def compare(I, node, op, a, b):
             if isinstance(op, (ast.Eq, ast.NotEq)):
                 return
-            if (_mentions_idx(a.sym) or _mentions_idx(b.sym)) and not _exempt(I.cur_func()) and not _rank_order_positions(I, a.sym if _mentions_idx(a.sym) else None, b.sym if _mentions_idx(b.sym) else None):
+            if (_mentions_idx(a.sym) or _mentions_idx(b.sym)) and not _exempt(I.cur_func()) and not _rank_order_positions(I, a if _mentions_idx(a.sym) else None, b if _mentions_idx(b.sym) else None):
                 f = I.cur_func()
                 sites.append(dict(m=f.partition("::")[0], fn=f.partition("::")[2], ln=getattr(node, "lineno", 0), c=norm_text(node, 100),
                                   msg="a loop position over teams/players is used in an ordering comparison"))
